@@ -41,6 +41,8 @@ type Sys interface {
 	Chown(p string, uid, gid int) int
 	Lchown(p string, uid, gid int) int
 	Chtimes(p string) int
+	// Chdir changes the current directory of the world (relative operands are resolved from it).
+	Chdir(p string) int
 	Lstat(p string) (Stat, int)
 	Stat(p string) (Stat, int)
 	Readlink(p string) (string, int)
@@ -118,6 +120,7 @@ func (s ImplSys) Lchown(p string, u, g int) int   { return hx.Code(s.V.Lchown(p,
 func (s ImplSys) Chtimes(p string) int {
 	return hx.Code(s.V.Chtimes(p, time.Unix(1000, 0), time.Unix(2000, 0)))
 }
+func (s ImplSys) Chdir(p string) int { return hx.Code(s.V.Chdir(p)) }
 func (s ImplSys) Lstat(p string) (Stat, int) {
 	fi, err := s.V.Lstat(p)
 	if err != nil {
@@ -183,6 +186,7 @@ func (s ModelSys) Chmod(p string, m uint32) int    { return s.F.Chmod(p, m) }
 func (s ModelSys) Chown(p string, u, g int) int    { return s.F.Chown(p, u, g) }
 func (s ModelSys) Lchown(p string, u, g int) int   { return s.F.Lchown(p, u, g) }
 func (s ModelSys) Chtimes(p string) int            { return s.F.Chtimes(p) }
+func (s ModelSys) Chdir(p string) int            { return s.F.Chdir(p) }
 func (s ModelSys) Lstat(p string) (Stat, int) {
 	st, e := s.F.Lstat(p)
 	return mstat(st), e
